@@ -17,6 +17,11 @@
 //!   ghost after <callee>: <let ghost ..;>     # proof_decl! right after each statement that calls <callee>
 //!   proof before_loop <N>: <text>            # proof block right before loop N
 //!   closure 0 binder r: Type               # closures are numbered in source order within the fn
+//!   closure 0 at <callee>#k                # anchor: the k-th closure (source order) passed to a call of <callee>; `$1`, `$2` in
+//!                                          # the closure's clauses stand for its parameter names
+//!   closures at <callee> pure: (Type)       # R28: every closure passed to <callee> whose body is a pure expression gets the
+//!                                          # derived postcondition `result == <body>` (result type as given)
+//!   closures exhaustive                     # a closure of this fn that gets no contract is a lost anchor (exit 2), never judged
 //!   closure 0 requires name: <expr>
 //!   closure 0 ensures name: <expr>
 //!   call <callee> with Tracked(log)          # R6 (callee: bare fn/method name or full "recv.method" / "a::b")
@@ -51,6 +56,8 @@ pub struct LoopContract {
 pub struct ClosureContract {
     /// locate the closure by a token substring of its body instead of by ordinal (robust against added/removed closures)
     pub match_text: Option<String>,
+    /// locate the closure as the k-th closure (source order) passed to a call of `<callee>` (`closure N at <callee>#k`)
+    pub at_call: Option<(String, usize)>,
     pub binder: Option<String>,
     pub requires: Vec<Clause>,
     pub ensures: Vec<Clause>,
@@ -85,6 +92,9 @@ pub struct FnContract {
     pub decreases: Option<String>,
     pub loops: BTreeMap<usize, LoopContract>,
     pub closures: BTreeMap<usize, ClosureContract>,
+    pub closures_exhaustive: bool,
+    /// R28: callee -> result type; a closure passed to that callee whose body is a pure expression gets `ensures result == body`
+    pub pure_closures: BTreeMap<String, String>,
     pub proof_end: Option<String>,
     pub proof_begin: Option<String>,
     pub ghost_begin: Option<String>,
@@ -194,6 +204,14 @@ pub fn parse_contracts(src: &str) -> Result<Contracts, String> {
                     other => return Err(format!("line {}: unknown loop directive `{}`", ln, other)),
                 }
             }
+            "closures" => {
+                let rest = rest.trim();
+                if rest == "exhaustive" { fc.closures_exhaustive = true; }
+                else if let Some(r) = rest.strip_prefix("at ") {
+                    let (callee, ty) = r.split_once(" pure:").ok_or_else(|| format!("line {}: `closures at <callee> pure: (Type)` expected", ln))?;
+                    fc.pure_closures.insert(callee.trim().to_string(), ty.trim().to_string());
+                } else { return Err(format!("line {}: `closures exhaustive` or `closures at <callee> pure: (Type)` expected", ln)); }
+            }
             "closure" => {
                 let mut it = rest.splitn(3, char::is_whitespace);
                 let k: usize = it.next().unwrap_or("").parse().map_err(|_| format!("line {}: closure ordinal", ln))?;
@@ -203,6 +221,10 @@ pub fn parse_contracts(src: &str) -> Result<Contracts, String> {
                 match sub {
                     "binder" => cc.binder = Some(r.to_string()),
                     "match" => cc.match_text = Some(r.split_whitespace().collect::<Vec<_>>().join("")),
+                    "at" => {
+                        let (callee, k) = match r.split_once('#') { Some((c, k)) => (c.trim(), k.trim().parse::<usize>().map_err(|_| format!("line {}: closure at <callee>#<k>", ln))?), None => (r, 0) };
+                        cc.at_call = Some((callee.to_string(), k));
+                    }
                     "requires" | "ensures" => {
                         let (name, strength, expr) = split_named(r, ln)?;
                         let cl = Clause { name, text: expr, strength, src_line: ln };
